@@ -1,9 +1,9 @@
 CONSTANTS
   Labels <- LabelsACStar
   Pool <- Pool2
-  MaxR = 2
+  MaxR = 3
   MaxC = 2
-  Perms = "all"
+  Perms = "some"
 INIT Init
 NEXT Next
 INVARIANTS TablesOK
